@@ -4152,7 +4152,12 @@ func (r *Resolver) resolveWithCachedNameservers(ctx context.Context, rs *resolve
 		return nil, errMaxDepth
 	}
 
-	rs.level++
+	// The descent continues in the cached zone, however many labels below
+	// the asking zone it lies (a delegation across an empty non-terminal,
+	// the co.jp shape, is more than one). The level is what checkGlueRR
+	// takes the glue bailiwick from: one short, and a sibling's name server
+	// names passed as in-bailiwick glue.
+	rs.level = dns.CountLabel(q.Name)
 	rs.servers = cached.Servers
 	rs.parentDS = cached.DSSet
 	rs.isRoot = false
